@@ -33,6 +33,12 @@ QUICK_N4 = [[0, 0, 1, 1], [0, 1, 1, 2], [0, 0, 0, 1], [1, 0, 0, 0], [2, 1, 1, 0]
             [0, 0, 0, 0], [1, 0, 1, 0], [1, 1, 0, 2], [0, 2, 1, 1], [2, 0, 2, 1]]
 
 
+# larger universes (6-7 elements): big buckets, many buckets, element in first / last / middle bucket
+LARGER = [[0, 0, 0, 1, 1, 2], [5, 4, 3, 2, 1, 0], [0, 1, 1, 1, 2, 3], [2, 2, 0, 1, 3, 3], [0, 0, 0, 0, 0, 1],
+          [1, 0, 2, 0, 1, 2, 3], [0, 1, 2, 3, 4, 5, 6], [3, 3, 3, 2, 1, 0, 0]]
+LARGER_THOROUGH = [[0, 2, 4, 1, 3, 5, 2], [4, 4, 4, 4, 0, 1, 2, 3], [0, 0, 1, 1, 2, 2, 3, 3], [6, 5, 4, 3, 2, 1, 0]]
+
+
 def analyse_vector(sim: bioc.BioSim, r0: List[int], cache: Dict[Tuple, List]) -> List[Tuple[str, str, str]]:
     """Returns a list of (rule, key-suffix, detail) problems for start vector r0 (empty = all obligations hold)."""
     problems: List[Tuple[str, str, str]] = []
@@ -177,6 +183,7 @@ def vectors_for(thorough: bool) -> List[List[int]]:
     vs.extend(bioc.dense_vectors(4))
     if thorough:
         vs.extend(bioc.dense_vectors(5))
+    vs.extend(LARGER if not thorough else LARGER + LARGER_THOROUGH)
     return vs
 
 
